@@ -29,7 +29,6 @@ import (
 	"fmt"
 	"os"
 	"reflect"
-	"sort"
 	"strings"
 	"testing"
 	"time"
@@ -505,19 +504,19 @@ func genTag(rt *rapid.T) string {
 
 func genTDesc(rt *rapid.T, depth int, spec, allowBad bool) tdesc {
 	k := rapid.IntRange(0, 99).Draw(rt, "kind")
-	if depth >= 3 && k >= 55 && k < 92 {
+	if depth >= 3 && k >= 42 && k < 92 {
 		k = 0
 	}
 	switch {
-	case k < 55:
+	case k < 42:
 		return tdesc{K: rapid.SampledFrom(okPrims).Draw(rt, "prim")}
-	case k < 67:
+	case k < 58:
 		e := genTDesc(rt, depth+1, spec, allowBad)
 		return tdesc{K: "slice", Elem: &e}
-	case k < 72:
+	case k < 63:
 		e := genTDesc(rt, depth+1, spec, allowBad)
 		return tdesc{K: "array", N: rapid.IntRange(0, 3).Draw(rt, "alen"), Elem: &e}
-	case k < 82:
+	case k < 77:
 		key := tdesc{K: rapid.SampledFrom(okKeys).Draw(rt, "key")}
 		if allowBad && rapid.IntRange(0, 5).Draw(rt, "badkey") == 0 {
 			key = tdesc{K: rapid.SampledFrom(badKeys).Draw(rt, "bkey")}
@@ -543,8 +542,8 @@ func genTDesc(rt *rapid.T, depth int, spec, allowBad bool) tdesc {
 
 func genStructDesc(rt *rapid.T, depth int, spec, allowBad bool) tdesc {
 	n := rapid.IntRange(0, 4).Draw(rt, "nfields")
-	if depth == 0 && n == 0 {
-		n = 1
+	if depth == 0 {
+		n = rapid.IntRange(1, 6).Draw(rt, "ntop")
 	}
 	d := tdesc{K: "struct"}
 	for i := 0; i < n; i++ {
@@ -723,7 +722,7 @@ func TestC43StructOf(t *testing.T) {
 		t.Skip()
 	}
 
-	kit.SetChecks(12_000, 60_000)
+	kit.SetChecks(20_000, 100_000)
 	rapid.Check(t, func(rt *rapid.T) {
 		c := c43StructOfCase{Mode: rapid.SampledFrom([]string{"state", "state", "spec"}).Draw(rt, "mode")}
 		allowBad := rapid.IntRange(0, 2).Draw(rt, "allowBad") == 0
@@ -898,6 +897,13 @@ func c43GenJudge(e genEntry, rec []uint64) (o c43GenOutcome) {
 	return o
 }
 
+func gcd(a, b int) int {
+	for b != 0 {
+		a, b = b, a%b
+	}
+	return a
+}
+
 func TestC43Generated(t *testing.T) {
 	s := kit.Begin(t, "C43", "generated",
 		"type = one of the checked-in catalogue types emitted by typeschk/gen (leaves: exported-only / unexported-only / mixed fields x {no custom JSON, correct Marshal+Unmarshal pair, MarshalJSON only, pointer-receiver MarshalJSON, pair that drops a field, UnmarshalJSON only}; refused kinds; json tags incl. duplicates; defined int/string types with the same marshaler flavours; 16 wrappers (nested, unexported nested, embedded, embedded+sibling, embedded+shadowing sibling, slice, map[string], map[int], array, pointer, json:\"-\", omitempty, duplicate json names, two embedded, map+nested+slice combination) + embedded unexported twins + wrappers of wrappers); value = reflection fill of ALL fields incl. unexported ones from a recorded draw stream. Real path: Builder.Build / EventDrivenBuilder.Build accept or panic; accepted State goes Component.SaveCheckpoint -> LoadCheckpoint into a second built component; Spec through Build + the same JSON. Oracle as in the file header; Build and Validate* must agree. Types that a canonical probe value shows to fall in a *listed* finding class are replaced (excluded_known). Non-trivial: accepted type, non-zero value, with a non-empty collection or a nested struct")
@@ -966,14 +972,21 @@ func TestC43Generated(t *testing.T) {
 		t.Skip()
 	}
 
-	kit.SetChecks(8_000, 40_000)
+	kit.SetChecks(30_000, 150_000)
 	rapid.Check(t, func(rt *rapid.T) {
+		// rapid favours small numbers; spread them over the catalogue (which is
+		// ordered leaves, wrappers, deep) with a multiplier coprime to its size
 		idx := rapid.IntRange(0, len(genRegistry)-1).Draw(rt, "type")
+		for _, k := range []int{200, 211, 223, 227} {
+			if gcd(k, len(genRegistry)) == 1 {
+				idx = (idx * k) % len(genRegistry)
+				break
+			}
+		}
 		if steer[idx] != "" {
 			s.Excluded(1)
 			// replace by the next type outside every listed class
-			j := sort.SearchInts(clean, idx)
-			idx = clean[j%len(clean)]
+			idx = clean[(idx*7919)%len(clean)]
 		}
 		c := c43GenCase{Index: idx, Name: genRegistry[idx].Name}
 		st := genStream(rt)
